@@ -98,15 +98,6 @@ fn shapes_hash<const K: usize>(lo: usize, hi: usize, max_depth: usize) {
     }
 }
 
-#[kani::proof]
-#[kani::unwind(10)]
-fn c20_grouping_hashmap_probe9() {
-    // 9 shapes of length 4
-    shapes_hash::<4>(36, 45, 2);
-    let w: bool = kani::any();
-    kani::cover!(w);
-}
-
 macro_rules! step_hash {
     ($m:ident, $model:ident, $max_depth:expr) => {{
         let op: u8 = kani::any();
@@ -167,4 +158,63 @@ fn c20_grouping_hashmap_merged6() {
     kani::cover!(o1 == 0 && o2 == 2 && o3 == 0 && o4 == 3 && o5 == 1 && o6 == 1, "begin, local, begin, global, end, end");
     kani::cover!(model.depth == 2, "depth 2 reached");
     std::mem::forget(m);
+}
+
+#[kani::proof]
+#[kani::unwind(5)]
+fn c20_grouping_hashmap_merged5() {
+    let mut m: GroupingHashMap<u8, u8> = Default::default();
+    let mut model = Model::new();
+    let o1 = step_hash!(m, model, 2);
+    let o2 = step_hash!(m, model, 2);
+    let o3 = step_hash!(m, model, 2);
+    let o4 = step_hash!(m, model, 2);
+    let o5 = step_hash!(m, model, 2);
+    kani::cover!(o1 == 0 && o2 == 0 && o3 == 2 && o4 == 3 && o5 == 1, "begin, begin, local, global, end");
+    kani::cover!(model.depth == 2, "depth 2 reached");
+    std::mem::forget(m);
+}
+
+/// Full iteration replayed through FromIterator rebuilds a container with the same visible values
+/// and the same behaviour when the open groups are closed (the structural core of VM checkpointing).
+#[kani::proof]
+#[kani::unwind(6)]
+fn c20_grouping_iter_all_rebuild2() {
+    use texcraft_stdext::collections::groupingmap::Item;
+    let mut m: GroupingHashMap<u8, u8> = Default::default();
+    let mut model = Model::new();
+    let o2 = step_hash!(m, model, 2);
+    let o3 = step_hash!(m, model, 2);
+    // replay
+    let mut m2: GroupingHashMap<u8, u8> = Default::default();
+    let mut begins = 0usize;
+    for item in m.iter_all() {
+        match item {
+            Item::BeginGroup => {
+                m2.begin_group();
+                begins += 1;
+            }
+            Item::Value((k, v)) => {
+                m2.insert(k, *v, Scope::Local);
+            }
+        }
+    }
+    assert!(begins == model.depth, "one BeginGroup per open group");
+    assert!(m2.get(&0u8).copied() == model.get(0) && m2.get(&1u8).copied() == model.get(1), "rebuilt map shows the same values");
+    // closing the groups one by one must reveal the same values in both
+    let mut d = 0;
+    while d < 2 {
+        let r1 = m.end_group();
+        let r2 = m2.end_group();
+        assert!(r1.is_ok() == r2.is_ok());
+        let _ = model.end();
+        assert!(m.get(&0u8) == m2.get(&0u8) && m.get(&1u8) == m2.get(&1u8), "same values after closing a group");
+        assert!(m.get(&0u8).copied() == model.get(0) && m.get(&1u8).copied() == model.get(1));
+        d += 1;
+    }
+    kani::cover!(o2 == 0 && o3 == 2 && begins >= 1, "local insert inside an open group before the rebuild");
+    kani::cover!(begins == 2, "two open groups at the rebuild");
+    kani::cover!(begins == 0 && model.get(0).is_some(), "global value only");
+    std::mem::forget(m);
+    std::mem::forget(m2);
 }
